@@ -57,6 +57,7 @@ fn for_instances(cx: &Cx, rep: &mut Report, run: &RoleRun, n: usize, mut f: impl
     let mut count = 0;
     rep.unanalysable(&run.label(), &run.unsupported);
     for p in &run.paths {
+        if shape_path(&p.cond) { continue; }
         if let Outcome::Ok(v) = &p.outcome {
             let inst = cache.get(v, n);
             match &*inst {
@@ -331,7 +332,7 @@ fn method_chain(t: &Tm) -> (Tm, Vec<(String, Vec<Tm>)>) {
     (cur, calls)
 }
 fn stringify_arg(t: &Tm) -> Option<String> {
-    match t { Tm::Call { path, args, .. } if ends(path, "stringify!") && args.len() == 1 => match &args[0] { Tm::Path(p) => Some(p.clone()), _ => None }, Tm::Lit(l) => Some(l.clone()), _ => None }
+    match t { Tm::Call { path, args, .. } if ends(path, "stringify!") && args.len() == 1 => match &args[0] { Tm::Path(p) => Some(p.clone()), _ => None }, Tm::Lit(l) => Some(l.trim_matches('"').to_string()), _ => None }
 }
 
 fn check_debug_chain(rep: &mut Report, inst: &Instance, label: &str, site: &str, cs: &str, expr: &Tm, named: bool, name_leaf_ok: &dyn Fn(&str) -> bool, fields: &[(usize, bool)], transparent: Option<usize>, v: Option<usize>, self_side_binder: bool) {
@@ -384,6 +385,7 @@ pub fn c10(cx: &Cx) -> i32 {
         let mut n_ok = 0;
         let mut n_err = 0;
         for p in &run.paths {
+            if shape_path(&p.cond) { continue; }
             let tr: Vec<bool> = (1..=2).map(|k| cl.atom(&p.cond, &fprefix(k), "HelperAttributeForDebug", "transparent") == Some(true)).collect();
             let ig: Vec<bool> = (1..=2).map(|k| cl.atom(&p.cond, &fprefix(k), "HelperAttributeForDebug", "ignore") == Some(true)).collect();
             let ntr = tr.iter().filter(|x| **x).count();
